@@ -335,6 +335,25 @@ pub fn generate(args: &Args, out: &mut Out) {
             }
         }
         out.case_str(&format!("uh {nk} {} / {}", h1.join(" "), h2.join(" ")));
+        // one key many times (values differ), a neighbour key, then removals at positions: against the
+        // object holding the surviving entries in push order
+        if r.chance(1, 3) {
+            let m = r.range(3, 8);
+            let mut ops: Vec<String> = (0..m).map(|i| format!("push:0:{}", i % 3)).collect();
+            ops.insert(r.below(m), format!("push:1:{}", r.below(3)));
+            ops.push(format!("push:1:{}", r.below(3)));
+            let mut alive: Vec<String> = ops.clone();
+            for _ in 0..r.range(1, 4) {
+                if alive.len() > 1 {
+                    let at = r.below(alive.len());
+                    ops.push(format!("rmat:{at}"));
+                    alive.remove(at);
+                }
+            }
+            out.case_str(&format!("uh {nk} {} / {}", ops.join(" "), alive.join(" ")));
+            alive.reverse();
+            out.case_str(&format!("uh {nk} {} / {}", ops.join(" "), alive.join(" ")));
+        }
         // front pushes only against back pushes of the same entries in reverse
         if r.chance(1, 4) {
             let es: Vec<(usize, usize)> = (0..r.range(1, 6)).map(|_| (r.below(2), r.below(2))).collect();
